@@ -5,6 +5,27 @@ import json, os
 HERE = os.path.dirname(os.path.dirname(os.path.abspath(__file__)))
 
 CLAIMED = {
+    "C05": dict(
+        text="spec/ErrorPolicy.tla gives the handler (stop, collect, fail, print, raise in code order; validation-mode overrides win "
+        "over the policy); spec/MC_ErrorPolicy.tla enumerates all 64 policies x overrides x 6 error kinds (argument mismatch on the "
+        "component / in value position, a function's own rule, a Python exception, nested, right of ->) x every non-empty set of "
+        "offending lines, and TLC checks the property's five iff-clauses (written independently) on every behaviour; every behaviour "
+        "is replayed through a real CsvPath with the policy written to a generated config.ini (empty policy via a Config object).",
+        note="Trusted: TLC, the six concrete error-provoking components as representatives of their kinds. printed/collected are judged "
+        "per offending line (>= 1 record), not by exact count. match/no-match overrides only with built-in argument validation on the component.",
+        technique="TLA+ spec (ErrorPolicy) model-checked exhaustively with TLC; all behaviours replayed into the implementation",
+        ref="7 (C05)",
+    ),
+    "C14": dict(
+        text="spec/Assign.tla transcribes the qualifier decision table; spec/MC_Assign.tla is the property's full quantifier (256 subsets x "
+        "y^3 x rest^3 = 208 896 behaviours, 835 584 states) on which TLC checks 13 prose invariants written from docs/assignment.md and the "
+        "property statement; every behaviour (quick: a 1/16 covering sample containing all 256 subsets) is replayed as a real csvpath over a "
+        "3-line file comparing, per line, the value of x, the assignment's vote and whether the line was returned.",
+        note="Trusted: TLC; y absent = row too short for the header index; the rest of the line is one equality component.",
+        technique="TLA+ decision table model-checked exhaustively with TLC; every TLC behaviour replayed into the implementation",
+        ref="7 (C14)",
+    ),
+
     "C01": dict(
         text="Every generated (csvpath, file) is run through the real CsvPath with one event per _consider_line call "
         "(returned?, per-component votes, counters, variables, printouts); TLC validates each recorded trace step by step "
